@@ -176,10 +176,8 @@ class Engine:
             if rest is None:
                 break
             if i == len(ks) - 1:
-                # tags are constrained to the declared range
-                a = rest.assume(tag == i)
-                if not self.feasible(a):
-                    a = None
+                # the last alternative is the "else" of the tag (any other tag value): the forks partition
+                a = rest
                 rest = None
             else:
                 a, rest = self.fork(rest, tag == i)
@@ -388,9 +386,7 @@ class Engine:
             if rest is None:
                 break
             if i == len(ks) - 1:
-                a = rest.assume(tag == i)
-                if not self.feasible(a):
-                    a = None
+                a = rest
                 rest = None
             else:
                 a, rest = self.fork(rest, tag == i)
@@ -601,13 +597,15 @@ class Engine:
     def exc_parent(self, name):
         if name in BUILTIN_EXC:
             return BUILTIN_EXC[name]
+        if name == "object":
+            return None
         try:
             ci = self.P.find_class(name)
         except frontend.MissingTarget:
-            return "Exception"
+            return None
         for b in ci.bases:
             return b
-        return "Exception"
+        return None
 
     def exc_is(self, name, base):
         seen = 0
